@@ -22,7 +22,7 @@ def sh(cmd, cwd, env=None):
 def main():
     pid, x = sys.argv[1], sys.argv[2]
     extra = sys.argv[3:]
-    src = f"/tmp/wt/{pid}/seeded/{x}"
+    src = os.path.join(os.environ.get("SEEDED_SRC", "/tmp/wt"), pid, "seeded", x)
     if not os.path.exists(os.path.join(src, "patch.diff")):
         print("no patch at", src)
         return 2
